@@ -120,8 +120,8 @@ fn differing_fields<T: Debug>(want: &T, got: &T) -> String {
 }
 
 fn canon_difference<T: Battery>(input: &Value, model_of_read: &Value) -> Option<String> {
-    let mut a = canon::canon_with(input, T::MAP_PATHS, T::OPAQUE_PATHS);
-    let mut b = canon::canon_with(model_of_read, &[], T::OPAQUE_PATHS);
+    let mut a = canon::canon_with(input, &T::is_map_path, &T::is_opaque_path);
+    let mut b = canon::canon_with(model_of_read, &|_| false, &T::is_opaque_path);
     if T::VALUE_BODY {
         a = canon::unwrap_value_body(a);
         b = canon::unwrap_value_body(b);
@@ -366,6 +366,8 @@ trait TypeDyn: Sync + Send {
 }
 
 struct Holder<T: Battery> {
+    name: &'static str,
+    covers: &'static str,
     inst: Vec<T>,
     compact: Vec<String>,
 }
@@ -397,16 +399,18 @@ impl<T: Battery> Holder<T> {
         keyed.truncate(cap);
         let compact = keyed.iter().map(|k| k.1.clone()).collect();
         let inst = keyed.into_iter().map(|k| k.2).collect();
-        Holder { inst, compact }
+        let name: &'static str = Box::leak(T::name().into_boxed_str());
+        let covers: &'static str = Box::leak(T::covers().into_boxed_str());
+        Holder { name, covers, inst, compact }
     }
 }
 
 impl<T: Battery> TypeDyn for Holder<T> {
     fn name(&self) -> &'static str {
-        T::NAME
+        self.name
     }
     fn covers(&self) -> &'static str {
-        T::COVERS
+        self.covers
     }
     fn count(&self) -> usize {
         self.inst.len()
@@ -430,9 +434,9 @@ impl<T: Battery> TypeDyn for Holder<T> {
         let size = self.compact[i].len();
         let tie = self.compact[i].clone();
         let base = |law: &str, extra: serde_json::Value| {
-            json!({"kind": "instance", "type": T::NAME, "tier": tier, "index": i, "instance": format!("{:?}", x),
+            json!({"kind": "instance", "type": self.name, "tier": tier, "index": i, "instance": format!("{:?}", x),
                    "law": law, "expected": format!("Ok({:?})", want), "observed": extra,
-                   "what": format!("{} violated for an instance of battery type {} ({})", law, T::NAME, T::COVERS),
+                   "what": format!("{} violated for an instance of battery type {} ({})", law, self.name, self.covers),
                    "input": format!("{:?}", x)})
         };
 
@@ -441,7 +445,7 @@ impl<T: Battery> TypeDyn for Holder<T> {
         let v = match guard(|| x.as_value()) {
             Ok(v) => v,
             Err(p) => {
-                sink.report("model", format!("type={} law=no_panic op=as_value", T::NAME), size, &tie, base("no_panic", json!(p)));
+                sink.report("model", format!("type={} law=no_panic op=as_value", self.name), size, &tie, base("no_panic", json!(p)));
                 return;
             }
         };
@@ -450,14 +454,14 @@ impl<T: Battery> TypeDyn for Holder<T> {
                 if v2 != v {
                     sink.report(
                         "model",
-                        format!("type={} law=into_value_eq_as_value", T::NAME),
+                        format!("type={} law=into_value_eq_as_value", self.name),
                         size,
                         &tie,
                         base("into_value_eq_as_value", json!({"as_value": format!("{:?}", v), "into_value": format!("{:?}", v2)})),
                     );
                 }
             }
-            Err(p) => sink.report("model", format!("type={} law=no_panic op=into_value", T::NAME), size, &tie, base("no_panic", json!(p))),
+            Err(p) => sink.report("model", format!("type={} law=no_panic op=into_value", self.name), size, &tie, base("no_panic", json!(p))),
         }
         let r1 = from_read(guard(|| T::try_from_value(&v)));
         let r2 = from_read(guard(|| T::try_convert(v.clone())));
@@ -467,7 +471,7 @@ impl<T: Battery> TypeDyn for Holder<T> {
                 let got = got_class(&want, r);
                 sink.report(
                     "model",
-                    format!("type={} law=model_roundtrip via={} got={}", T::NAME, via, got),
+                    format!("type={} law=model_roundtrip via={} got={}", self.name, via, got),
                     size,
                     &tie,
                     base("model_roundtrip", json!({"via": via, "value": format!("{:?}", v), "got": r.show()})),
@@ -478,7 +482,7 @@ impl<T: Battery> TypeDyn for Holder<T> {
         // ---- recon print / parse
         add(&c.recon_evals, 1);
         match print3(x) {
-            Err(p) => sink.report("recon", format!("type={} law=no_panic op=print_recon", T::NAME), size, &tie, base("no_panic", json!(p))),
+            Err(p) => sink.report("recon", format!("type={} law=no_panic op=print_recon", self.name), size, &tie, base("no_panic", json!(p))),
             Ok(_) if T::SKIP_RECON_ROUNDTRIP => {}
             Ok(texts) => {
                 let mut bad: Vec<(&str, String, String, String)> = vec![];
@@ -495,7 +499,7 @@ impl<T: Battery> TypeDyn for Holder<T> {
                     if all_same {
                         sink.report(
                             "recon",
-                            format!("type={} law=recon_roundtrip printer=any got={}", T::NAME, bad[0].2),
+                            format!("type={} law=recon_roundtrip printer=any got={}", self.name, bad[0].2),
                             size,
                             &tie,
                             base("recon_roundtrip", json!({"text": bad[0].1, "got": bad[0].3})),
@@ -504,7 +508,7 @@ impl<T: Battery> TypeDyn for Holder<T> {
                         for b in &bad {
                             sink.report(
                                 "recon",
-                                format!("type={} law=recon_roundtrip printer={} got={}", T::NAME, b.0, b.2),
+                                format!("type={} law=recon_roundtrip printer={} got={}", self.name, b.0, b.2),
                                 size,
                                 &tie,
                                 base("recon_roundtrip", json!({"text": b.1, "got": b.3})),
@@ -522,7 +526,7 @@ impl<T: Battery> TypeDyn for Holder<T> {
             Err(e) => {
                 sink.report(
                     "msgpack",
-                    format!("type={} law=msgpack_write got={}", T::NAME, variant_name(&e)),
+                    format!("type={} law=msgpack_write got={}", self.name, variant_name(&e)),
                     size,
                     &tie,
                     base("msgpack_write", json!(e)),
@@ -539,7 +543,7 @@ impl<T: Battery> TypeDyn for Holder<T> {
             let got = if whole == Out::Ok(want.clone()) { "Ok(unconsumed)".to_string() } else { got_class(&want, &whole) };
             sink.report(
                 "msgpack",
-                format!("type={} law=msgpack_roundtrip got={}", T::NAME, got),
+                format!("type={} law=msgpack_roundtrip got={}", self.name, got),
                 size,
                 &tie,
                 base("msgpack_roundtrip", json!({"bytes": hex(&bytes), "got": whole.show(), "unconsumed": left})),
@@ -551,7 +555,7 @@ impl<T: Battery> TypeDyn for Holder<T> {
         match mp_write(&v) {
             Err(e) => sink.report(
                 "msgpack",
-                format!("type={} law=msgpack_write_model got={}", T::NAME, variant_name(&e)),
+                format!("type={} law=msgpack_write_model got={}", self.name, variant_name(&e)),
                 size,
                 &tie,
                 base("msgpack_write_model", json!(e)),
@@ -563,7 +567,7 @@ impl<T: Battery> TypeDyn for Holder<T> {
                     let got = got_class(&want, &r);
                     sink.report(
                         "msgpack",
-                        format!("type={} law=msgpack_model_encoding_roundtrip got={}", T::NAME, got),
+                        format!("type={} law=msgpack_model_encoding_roundtrip got={}", self.name, got),
                         size,
                         &tie,
                         base("msgpack_model_encoding_roundtrip", json!({"bytes": hex(&vb), "value": format!("{:?}", v), "got": r.show()})),
@@ -584,7 +588,7 @@ impl<T: Battery> TypeDyn for Holder<T> {
                 let got = if r.is_ok() { "Ok(different)".to_string() } else { r.class() };
                 sink.report(
                     "msgpack",
-                    format!("type={} law=msgpack_segmented_buf_same_result contiguous={} got={}", T::NAME, whole.class(), got),
+                    format!("type={} law=msgpack_segmented_buf_same_result contiguous={} got={}", self.name, whole.class(), got),
                     size * 1000 + cuts.len(),
                     &tie,
                     base("msgpack_segmented_buf_same_result", json!({"bytes": hex(&bytes), "cuts": cuts, "contiguous": whole.show(), "got": r.show()})),
@@ -603,7 +607,7 @@ impl<T: Battery> TypeDyn for Holder<T> {
                     let got = if ow.is_ok() { "Ok".to_string() } else { "PANIC".to_string() };
                     sink.report(
                         "msgpack",
-                        format!("type={} law=msgpack_truncated_input_rejected got={}", T::NAME, got),
+                        format!("type={} law=msgpack_truncated_input_rejected got={}", self.name, got),
                         size * 1000 + k,
                         &tie,
                         base("msgpack_truncated_input_rejected", json!({"bytes": hex(&bytes), "prefix_len": k, "got": r.show()})),
@@ -620,9 +624,9 @@ impl<T: Battery> TypeDyn for Holder<T> {
         let direct: Out<T> = from_parse(guard(|| parse_recognize::<T>(text, false)));
         let parsed: Out<Value> = from_parse(guard(|| parse_recognize::<Value>(text, false)));
         let detail = |law: &str, d: String, m: String| {
-            json!({"kind": "text", "type": T::NAME, "text": text, "origin": origin(), "law": law,
+            json!({"kind": "text", "type": self.name, "text": text, "origin": origin(), "law": law,
                    "direct": d, "via_model": m,
-                   "what": format!("{}: reading battery type {} ({}) directly from Recon text and via the Value model disagree", law, T::NAME, T::COVERS),
+                   "what": format!("{}: reading battery type {} ({}) directly from Recon text and via the Value model disagree", law, self.name, self.covers),
                    "input": text})
         };
         let model: Out<T> = match &parsed {
@@ -633,7 +637,7 @@ impl<T: Battery> TypeDyn for Holder<T> {
                 if m1 != m2 {
                     sink.report(
                         "agree",
-                        format!("type={} law=try_convert_eq_try_from_value from_value={} convert={}", T::NAME, m1.class(), m2.class()),
+                        format!("type={} law=try_convert_eq_try_from_value from_value={} convert={}", self.name, m1.class(), m2.class()),
                         text.len(),
                         text,
                         detail("try_convert_eq_try_from_value", m1.show(), m2.show()),
@@ -648,7 +652,7 @@ impl<T: Battery> TypeDyn for Holder<T> {
             if o == "PANIC" {
                 sink.report(
                     "agree",
-                    format!("type={} law=no_panic path={}", T::NAME, which),
+                    format!("type={} law=no_panic path={}", self.name, which),
                     text.len(),
                     text,
                     detail("no_panic", direct.show(), model.show()),
@@ -667,7 +671,7 @@ impl<T: Battery> TypeDyn for Holder<T> {
             };
             sink.report(
                 "agree",
-                format!("type={} law=recon_direct_eq_via_model direct={} model={}", T::NAME, d, m),
+                format!("type={} law=recon_direct_eq_via_model direct={} model={}", self.name, d, m),
                 text.len(),
                 text,
                 detail("recon_direct_eq_via_model", direct.show(), model.show()),
@@ -680,12 +684,12 @@ impl<T: Battery> TypeDyn for Holder<T> {
                 if let Some(d) = canon_difference::<T>(v, &back) {
                     sink.report(
                         "agree",
-                        format!("type={} law=accepted_input_matches_model source=recon at={}", T::NAME, d),
+                        format!("type={} law=accepted_input_matches_model source=recon at={}", self.name, d),
                         text.len(),
                         text,
-                        json!({"kind": "text", "type": T::NAME, "text": text, "origin": origin(), "law": "accepted_input_matches_model",
+                        json!({"kind": "text", "type": self.name, "text": text, "origin": origin(), "law": "accepted_input_matches_model",
                                "input_as_value": format!("{:?}", v), "read_as": format!("{:?}", x), "model_of_read": format!("{:?}", back),
-                               "what": format!("battery type {} ({}) accepts a Recon text that is not a re-spelling of the model of the value it is read as (a field was invented, dropped or taken from the wrong place)", T::NAME, T::COVERS),
+                               "what": format!("battery type {} ({}) accepts a Recon text that is not a re-spelling of the model of the value it is read as (a field was invented, dropped or taken from the wrong place)", self.name, self.covers),
                                "input": text}),
                     );
                 }
@@ -723,12 +727,12 @@ impl<T: Battery> TypeDyn for Holder<T> {
                     let h = hex(bytes);
                     sink.report(
                         "msgpack_agree",
-                        format!("type={} law=accepted_input_matches_model source=msgpack at={}", T::NAME, d),
+                        format!("type={} law=accepted_input_matches_model source=msgpack at={}", self.name, d),
                         bytes.len(),
                         &h,
-                        json!({"kind": "msgpack_bytes", "type": T::NAME, "hex": h, "origin": origin(), "law": "accepted_input_matches_model",
+                        json!({"kind": "msgpack_bytes", "type": self.name, "hex": h, "origin": origin(), "law": "accepted_input_matches_model",
                                "input_as_value": format!("{:?}", v), "read_as": format!("{:?}", x), "model_of_read": format!("{:?}", back),
-                               "what": format!("battery type {} ({}) accepts a MessagePack input that is not a re-spelling of the model of the value it is read as", T::NAME, T::COVERS),
+                               "what": format!("battery type {} ({}) accepts a MessagePack input that is not a re-spelling of the model of the value it is read as", self.name, self.covers),
                                "input": h}),
                     );
                 }
@@ -742,12 +746,12 @@ impl<T: Battery> TypeDyn for Holder<T> {
             let h = hex(bytes);
             sink.report(
                 "msgpack_agree",
-                format!("type={} law=msgpack_direct_eq_via_model direct={} model={}", T::NAME, d, m),
+                format!("type={} law=msgpack_direct_eq_via_model direct={} model={}", self.name, d, m),
                 bytes.len(),
                 &h,
-                json!({"kind": "msgpack_bytes", "type": T::NAME, "hex": h, "origin": origin(), "law": "msgpack_direct_eq_via_model",
+                json!({"kind": "msgpack_bytes", "type": self.name, "hex": h, "origin": origin(), "law": "msgpack_direct_eq_via_model",
                        "direct": direct.show(), "via_model": model.show(), "as_value": parsed.show(),
-                       "what": format!("reading battery type {} ({}) directly from MessagePack and via the Value model disagree", T::NAME, T::COVERS),
+                       "what": format!("reading battery type {} ({}) directly from MessagePack and via the Value model disagree", self.name, self.covers),
                        "input": h}),
             );
         }
@@ -755,25 +759,40 @@ impl<T: Battery> TypeDyn for Holder<T> {
 }
 
 macro_rules! registry {
-    ($p:expr, $cap:expr; $($t:ty),* $(,)?) => {
-        vec![$(Box::new(Holder::<$t>::new($p, $cap)) as Box<dyn TypeDyn>),*]
+    ($p:expr, $cap:expr; plain: [$($t:ty),* $(,)?]; wrapped: [$($w:ty),* $(,)?]) => {
+        vec![
+            $(Box::new(Holder::<$t>::new($p, $cap)) as Box<dyn TypeDyn>,)*
+            $(Box::new(Holder::<$w>::new($p, $cap)) as Box<dyn TypeDyn>,)*
+            $(Box::new(Holder::<Multi<$w>>::new($p, $cap)) as Box<dyn TypeDyn>,)*
+            $(Box::new(Holder::<Places<$w>>::new($p, $cap)) as Box<dyn TypeDyn>,)*
+            $(Box::new(Holder::<Bodies<$w>>::new($p, $cap)) as Box<dyn TypeDyn>,)*
+        ]
     };
 }
 
+/// `plain`: built-in implementations, and the derived types whose own instances already violate
+/// the property on the unchanged tree (known findings D1, D2, D8, D9, D11) - wrapping them would
+/// only re-report the element's defect under every wrapper. `wrapped`: every other derived type,
+/// checked on its own and as the element type of `Multi`, `Places` and `Bodies`.
 fn registry(p: &Pools, cap: usize) -> Vec<Box<dyn TypeDyn>> {
     registry!(p, cap;
-        Unit0, UnitTagged, Tup1, NewT, NewRec, Tup2, TupSkip, TupHdr, TupRen,
-        Named, Renamed, ConvNames,
-        Hdr1, Hdr2, Hdr2Same, HdrBody, HdrBodySlots, HdrVec, HdrRec,
-        Attr1, Attr2, Body1, BodyRec, BodyVec, BodyMap, BodyOpt, BodyBlob, BodyBig,
-        Opts, OptHdr, OptHdrBody, Colls, AttrColls, IntMap, Prims, Bigs,
-        Gen<i32>, Gen<Named>, Gen<Vec<String>>, GenBody<E1>, Nest1, Nest2, VecStruct,
-        E1, E2, Tagged, EnumHolder,
-        ValSlot, ValBody, ValAttr, ValHdrBody, ValHdr, ValEnum,
-        Builtins, BuiltinPlaces, UnitAttr, NestedColls,
-        i32, u64, f64, String, BigInt, BigUint, Vec<u8>, Vec<i32>, Option<i32>, Option<Named>,
-        HashMap<String, i32>, (i32, String), std::time::Duration, swimos_model::Timestamp,
-        swimos_utilities::future::RetryStrategy, Vec<Named>, Value,
+        plain: [
+            AttrColls, BodyOpt, BodyBlob, BodyBig, UnitAttr, ValEnum,
+            i32, u64, f64, String, BigInt, BigUint, Vec<u8>, Vec<i32>, Option<i32>, Option<Named>,
+            HashMap<String, i32>, (i32, String), std::time::Duration, swimos_model::Timestamp,
+            swimos_utilities::future::RetryStrategy, Vec<Named>, Value,
+        ];
+        wrapped: [
+            Unit0, UnitTagged, Tup1, NewT, NewRec, Tup2, TupSkip, TupHdr, TupRen,
+            Named, Renamed, ConvNames,
+            Hdr1, Hdr2, Hdr2Same, HdrBody, HdrBodySlots, HdrBody2Slots, HdrBodyAttr, HdrVec, HdrRec,
+            Attr1, Attr2, Body1, BodyRec, BodyVec, BodyMap,
+            Opts, OptHdr, OptHdrBody, Colls, IntMap, Prims, Bigs,
+            Gen<i32>, Gen<Named>, Gen<Vec<String>>, GenBody<E1>, Nest1, Nest2, VecStruct,
+            E1, E2, Tagged, TaggedHb, EnumHolder,
+            ValSlot, ValBody, ValAttr, ValHdrBody, ValHdr,
+            Builtins, BuiltinPlaces, NestedColls,
+        ]
     )
 }
 
